@@ -37,6 +37,54 @@ CLAIMED = {
              "not proved; NaN, ndarray-valued factory defaults and the identity short-cut of container comparison are outside the value model (explicit assumptions).",
         technique="Lean 4 proof over hand-written model + dispatch table regenerated from source + differential correspondence + warm/cold search",
         design="5 (C06)"),
+    "C05": dict(
+        text="Lean theorems about the same plan functions the validator executes, for all ranks/shapes/permutations/element algebras: transpose_transpose over the permutation-composition "
+             "kernel TRANSLATED from optimizer/classical.py on every run (composePerm_spec by rfl breaks if the order is reversed), transpose_id, reshape_same, reshape_reshape, broadcast_same, "
+             "concat_singleton, each extracted no-op test implies its theorem's hypothesis, termination of the pass loop for any strictly-decreasing pass model, equiv_sound/equivG_sound "
+             "(symbolic equivalence of two programs implies equal outputs on all inputs). On every run each real graph before/after tracer.optimize is proved equal symbolically in the driver "
+             "(unsupported primitives fall back to a node-by-node numpy evaluator incl. in-place nodes), real passes are monitored for the termination measure, synthetic chains with shared "
+             "sub-graphs are optimised with the real pattern objects.",
+        note="Trusted: Lean kernel, driver, the Python->Lean mini translator for the kernel anchors, graph serialiser/translator, numpy primitive plans. Whole-pass soundness with sharing "
+             "(rebuild_preserves) is not a theorem: it is established per real graph by equiv + equiv_sound and by the evaluator; Cast is the identity by construction of the translation.",
+        technique="Lean 4 proof over kernels translated from source + per-graph translation validation (pre vs post optimisation)",
+        design="5 (C05)"),
+    "C07": dict(
+        text="Lean model of _to_el_expr/_parse_op on the C12 stage-1 trees with per-family flags REGENERATED from the AST; 28 theorems for all trees: implicit-output rules "
+             "(superset, single input, same, update, reduce with/without keepdims), auto_brackets, keepdims_is_parenthesised, adjacent_brackets_merge, number_is_fresh_axis, rearrange_is_id "
+             "(over the extracted body), obligations over the extracted flags/el_op builders. Ties: model vs the real _parse_op (canonical trees / error kinds) on generated and recorded calls; "
+             "search: 17 documented short/long pair generators on the real code (values, exception class, generated code).",
+        note="Trusted: Lean kernel, driver, AST extractor, harness. Shorthands that live in stage 2/3 (number = fresh axis for results, anonymous/expanded ellipsis, scalar size = repeated tuple, "
+             "unit coordinate bracket, [a] [b] = [a b] for results) and nested '->'/',' distribution are covered by the pair search only (samples by decide +kernel); argfind's rule has no theorem.",
+        technique="Lean 4 proof over hand-written model on regenerated flags + differential correspondence + metamorphic pair search",
+        design="5 (C07)"),
+    "C08": dict(
+        text="Lean theorems on a loop-free form of the denotation proved equal to the executable one (denoteId_fun_agree): renaming invariance for injective renamings (denote_rename*), "
+             "pos_flat_is_ravel and the regrouping laws against the IR's reshape plan, input/output permutation against the IR's transpose plan, positions valid and injective on the iteration "
+             "space, id_inverse and id_compose in full (substitution of symbolic tensors). Search: six metamorphic relations on real einx calls (rename, permute input/output, regroup, round "
+             "trip, composition) over all families/backends with equal lengths and length-1 axes, also evaluated on the Lean denotation.",
+        note="Trusted: Lean kernel, driver, harness. permute_input/output are per in-range assignment (not lifted to whole tensors); the functional/loop tie theorem covers single-input id, "
+             "multi-tensor id and elementwise are tied by the driver differential; transfer to einx goes through C01's tie.",
+        technique="Lean 4 proof over denotation + metamorphic search on the implementation",
+        design="5 (C08)"),
+    "C09": dict(
+        text="Lean store semantics with objects, views and in-place nodes over an alias table of the 54 traced numpy functions (in-place registrations and compiler aliasing facts REGENERATED "
+             "from the source): alias_sound, write_frame, noWrite_sound (if the static check passes, input i is unchanged for every store, every view/copy decision and every written content), "
+             "at_only_first. On every run: writes(g) of every traced graph (must be [] / within [0] for *_at), alias-table conformance against numpy (shares_memory, write-through) in four "
+             "memory layouts, and a byte/flag/kwargs snapshot oracle on real calls incl. solve_*/matches/graph=True with read-only and strided arguments.",
+        note="Trusted: Lean kernel, driver, extractor, graph translation, the alias table (numpy's view/copy behaviour; conformance-tested each run), C04's claim that each in-place statement "
+             "runs once in dependency order. Objects are whole buffers (over-approximation).",
+        technique="Lean 4 proof (frame property over alias analysis) + table conformance + snapshot search",
+        design="5 (C09)"),
+    "C17": dict(
+        text="Lean: restricted statement grammar of emitted Python with a cost semantics: grammar_loop_free (a block performs exactly flatCalls calls for every environment), "
+             "cost_skeleton_invariant, skeleton_only_ints (equal skeletons iff same up to integer literals), stb_size_generic (the model of _squeeze_transpose_broadcast emits equal "
+             "skeletons for length assignments with the same 1-pattern, all expressions), obligations regenerated from the source (every size-dependent decision in the lowering modules is of "
+             "an allowed class; IR node kinds are straight-line; emitter fragments contain no control keywords). Ties: every emitted text must decode into the grammar in the Lean driver; the "
+             "stb/lowerId model program equals the real traced graph; search: same-1-pattern size re-assignments must give equal skeletons and call counts.",
+        note="Trusted: Lean kernel, driver, the taint-based source inventory, harness. Size-genericity is a theorem only for _squeeze_transpose_broadcast (id partially); all other lowering "
+             "paths rest on the source obligation, the ties and the search (stated in evidence). Only numpy backends run here (no nested-def code from vmap backends).",
+        technique="Lean 4 proof (grammar cost semantics, stb size-genericity) + source inventory obligation + skeleton search",
+        design="5 (C17)"),
     "C10": dict(
         text="Lean interleaving semantics over the sequential registry model (acquire?; read snapshot; compute; store; release? per method, lock table REGENERATED from the AST): "
              "locked_linearizable (for every number of threads, every program and every schedule, a finished execution equals the serial run in commit order: outputs, final state), "
